@@ -284,7 +284,6 @@ class Z:
     """z3-term scalar; real if ``im is None`` else complex (pair of real terms)"""
 
     __slots__ = ("re", "im")
-    __array_priority__ = 1000
 
     def __init__(self, re, im=None):
         self.re = re
